@@ -18,8 +18,8 @@ META = {
     "bounds": {
         "quick": "every directed graph over 3 synthesised dataclasses (9 adjacency bits), two edge kinds per graph drawn from "
                  "{C, Optional[C], list[C], dict[str, C]} (assigned by edge parity), root C0 bare or inside list / Optional / dict[str, .]; "
-                 "naming variants {plain, a class nested in another, two classes of the same name in different modules} on a third "
-                 "of the graphs; input forms {type, 'string', ForwardRef, NewType, alias, repeated call} on the 512 single-kind graphs",
+                 "naming / flavour variants {plain, a class nested in another, two classes of the same name in different modules, NamedTuple classes with string annotations} on a third "
+                 "of the graphs; input forms {type, 'string', ForwardRef, NewType, alias, NewType of NewType, NewType of alias, alias of NewType, repeated call} on the 512 single-kind graphs",
         "thorough": "4 classes with out-degree <= 2 (partitioned), all edge-kind pairs",
     },
     "assumptions": ["member relation of the reference model: generic arguments of a subscripted type, field annotations of a class"],
@@ -47,6 +47,8 @@ def synth(n, adj, ka, kb, naming):
     sys.modules[ma.__name__] = ma
     sys.modules[mb.__name__] = mb
     cls = []
+    if naming == 3:
+        return _synth_namedtuple(n, adj, ka, kb, ma, mb)
     for i in range(n):
         name, mod, qual = f"C{i}", ma, f"C{i}"
         if naming == 1 and i == n - 1:  # last class nested in C0
@@ -70,6 +72,34 @@ def synth(n, adj, ka, kb, naming):
         members[cls[i]] = list(ann.items())
     for c in cls:
         dataclasses.dataclass(c)
+    return cls, members, (ma, mb)
+
+
+def _synth_namedtuple(n, adj, ka, kb, ma, mb):
+    """The same graph over typing.NamedTuple classes (tuple subclasses: a stdlib base) with string annotations
+    resolved in the synthetic module."""
+    ma.typing = t
+    kinds_src = ("{c}", "typing.Optional[{c}]", "list[{c}]", "dict[str, {c}]")
+    placeholders = [type(f"C{i}", (), {}) for i in range(n)]  # only to compute the reference member relation
+    cls = []
+    for i in range(n):
+        fields = []
+        for j in range(n):
+            if adj[i * n + j]:
+                k = ka if (i + j) % 2 == 0 else kb
+                fields.append((f"f{j}", kinds_src[k].format(c=f"C{j}")))
+        c = t.NamedTuple(f"C{i}", fields)
+        c.__module__ = ma.__name__
+        c.__qualname__ = f"C{i}"
+        setattr(ma, f"C{i}", c)
+        cls.append(c)
+    members = {}
+    for i, c in enumerate(cls):
+        ms = []
+        for j in range(n):
+            if adj[i * n + j]:
+                ms.append((f"f{j}", wrap_kind(ka if (i + j) % 2 == 0 else kb, cls[j])))
+        members[c] = ms
     return cls, members, (ma, mb)
 
 
@@ -187,7 +217,7 @@ def run_graph(n, adj, ka, kb, container, naming):
         caches.clear_all()
         root = cls[0]
         root_T = (root, list[root], t.Optional[root], dict[str, root])[container]
-        label = f"{('bare', 'list', 'Optional', 'dict')[container]}/{('plain', 'nested', 'same_name')[naming]}"
+        label = f"{('bare', 'list', 'Optional', 'dict')[container]}/{('plain', 'nested', 'same_name', 'namedtuple')[naming]}"
         try:
             nodes = [*graph.itertypes(root_T)]
         except RecursionError:
@@ -219,7 +249,7 @@ def make_topo(n, container, ka, timeout, quick=True, seed=0):
             naming = 0
             adj = [bool((bits >> i) & 1) for i in range(nb)]
             if bits % (5 if quick else 3) == 0:
-                naming = 1 + ch.pick(2)
+                naming = 1 + ch.pick(3)
             reached()
             return run_graph(n, adj, ka, kb, container, naming)
 
@@ -252,7 +282,11 @@ def make_forms(n, ka, timeout):
                     return ("graph_raised:" + type(e).__name__, "forms", _d(adj, e))
                 N = t.NewType("N", root)
                 A = t.TypeAliasType("A", root)
+                N2 = t.NewType("N2", N)
+                NA = t.NewType("NA", A)
+                AN = t.TypeAliasType("AN", N)
                 forms = {
+                    "newtype_of_newtype": N2, "newtype_of_alias": NA, "alias_of_newtype": AN,
                     "string": f"{root.__module__}.{root.__qualname__}",
                     "forwardref": refs.forwardref(root.__qualname__, module=root.__module__),
                     "newtype": N, "alias": A, "repeat": root,
